@@ -109,7 +109,18 @@ check('C08', 'exploration',
       'TLA+ literal/denotation tables built by TLC + evaluation of read/write observations',
       'DESIGN.md 4/C08')
 
-PENDING = ['C01', 'C02', 'C03', 'C04', 'C05', 'C06', 'C07', 'C16', 'C17']
+check('C05', 'exploration',
+      'SpyneValidate.tla defines 1 517 cases (one facet group and one probe each: numeric ranges, fixed-width bounds - '
+      'exhaustively -130..260 for the 8-bit types, 32/64-bit bounds as digit strings - string length, whole-string pattern, '
+      'enumeration, occurrence counts 0..3 against min/max, nullability, instants written with four UTC offsets, lexical '
+      'well-formedness) with Valid computed in TLA+; TLC checks that every facet is effective and that verdicts are '
+      'offset-free, and exports the table. Every case x nesting position {argument, nested field, array member, XML attribute} '
+      'x family {XML, SOAP 1.1, SOAP 1.2, JSON, YAML, MessagePack, HttpRpc} is sent as a real request (35 000 requests, written '
+      'by independent encoders) and TLC compares user-function-ran / Client-fault with Valid. An exhaustive case table.',
+      'TLA+ facet/verdict table (TLC) + evaluation of real accept/reject observations',
+      'DESIGN.md 4/C05')
+
+PENDING = ['C01', 'C02', 'C03', 'C04', 'C06', 'C07', 'C16', 'C17']
 
 def main():
     import importlib
